@@ -1,6 +1,6 @@
-Require Import Regex Tok Engine Prefix Lines Model Deriv DfaCheck Cache.
+Require Import Regex Tok Engine Prefix Lines Model Deriv DfaCheck Cache Tree Refactor Issues.
 Definition cache_run (fixA fixB : bool) (h : list Cache.op) : list (nat * nat) := Cache.run (fun k => k) fixA fixB (Cache.mkS 0 None None) h.
 From Coq Require Extraction ExtrOcamlBasic.
 Extraction Blacklist String List Bool.
 Extraction "model.ml" Model.run_tok Model.tokenize_text Model.parse_tokens Model.parse_text Model.plan_table
-  Model.split_prefix_m Model.regex_by_id Regex.rmatch Lines.split_keep Prefix.part_end Prefix.spacing_part DfaCheck.check_rule cache_run.
+  Model.split_prefix_m Model.regex_by_id Regex.rmatch Lines.split_keep Prefix.part_end Prefix.spacing_part DfaCheck.check_rule cache_run Refactor.refactor Tree.get_code Issues.add_issue Issues.err_add Issues.finalize.
